@@ -245,7 +245,7 @@ CLAIMED = {
         "out-of-range ordinals, damaged bytes, DTSTART at the range edges and invalid dates) through parser and stream under ASan/UBSan with "
         "a work budget per stream; rules the RFC reference judges empty must end at once; calendars with several RRULE/EXRULE/RDATE lines "
         "through the whole parser.",
-   note="Trusted: Lean kernel; harness hx_strm.c; sanitizers (-fno-sanitize=shift); the transcriptions Echse/Model/Rr*.lean. Memory safety "
+   note="Trusted: Lean kernel; harness hx_strm.c; sanitizers (-fno-sanitize=shift-base); the transcriptions Echse/Model/Rr*.lean. Memory safety "
         "of the C code itself is observed (sanitizers on the inputs run), not proved; the theorems bound the number of writes and loop rounds "
         "of the model. `Bounded work' on the real code means 200 occurrences within 5 s in the sanitizer build.",
    technique="Lean 4 proof (measure arguments for every fuelled loop) + sanitizer run of hostile inputs with a work budget + differential correspondence",
